@@ -266,3 +266,165 @@ def c15(tier):
                          'fact that zeep only calls write_fmt (std loops until the buffer is written). Outside: documents not in the corpus.',
                   extra_assumptions=['the reader part is run concretely once per document; write_xml does not mutate the document',
                                      'failure granularity = one write!/writeln! call (io::Write::write_fmt)'])
+
+
+# ================================================================================================ scenario runner
+import families as F
+import oracles as O
+import rustout as RO
+from schema_model import Env, pascal
+from scen import Scenario
+
+
+def mod_map(items, info, env):
+    """prefix -> module, read off the output: the module that holds the struct of a known component of that namespace"""
+    mod_of_uri = {}
+    for fn, comp in info.subjects + getattr(info, 'anon', []) + getattr(info, 'simple', []):
+        sch = info.schemas[fn]
+        uri = sch.tns
+        if uri in mod_of_uri or not isinstance(uri, str):
+            continue
+        nm = comp.name
+        if not isinstance(nm, str):
+            continue
+        for it in items:
+            if it.kind == 'struct' and RO.one(it.name) == pascal(nm) and isinstance(it.name, str):
+                mod_of_uri[uri] = RO.one(it.module) if it.module is not None else None
+                break
+    out = {}
+    for sch in info.schemas.values():
+        for p, u in sch.prefixes.items():
+            if u in mod_of_uri:
+                out[p] = mod_of_uri[u]
+    return out, mod_of_uri
+
+
+def eval_checks(s, sc, m, checks, on_violation):
+    """solver: is pc ∧ ¬ok satisfiable for some check? -> on_violation(check, model)"""
+    n = 0
+    for c in checks:
+        cond = RO.cond_false(c.ok)
+        if cond is None:
+            continue
+        model = sc.solve(m, cond)
+        n += 1
+        if model is not None:
+            on_violation(c, model)
+    return n
+
+
+def scenario_check(s, sc, info, oracle, classify=None, accept_errors=True):
+    """explore a scenario; evaluate the oracle on every Ok path; replay every solver-found violation natively"""
+    ctx = s.ctx
+    s.scenarios += 1
+    t1 = time.time()
+    res = sc.explore(ctx)
+    s.count(res)
+    if len(res) > 1:
+        s.nontrivial += 1
+    reported = set()
+    stats = dict(scenario=sc.name, paths=len(res), ok=0, err=0, panic=0, diverge=0, checks=0, violations=[],
+                 symbolic={x.name: (x.options if len(x.options) <= 8 else x.options[:6] + ['… %d values' % len(x.options)]) for x in sc.selectors})
+    for m, out in res:
+        if out[0] == 'panic':
+            stats['panic'] += 1
+            continue
+        if out[0] == 'diverge':
+            stats['diverge'] += 1
+            continue
+        r = out[1]
+        if r[0] != 'ok':
+            stats['err'] += 1
+            continue
+        stats['ok'] += 1
+        sink = r[1]
+        try:
+            items, lines = RO.parse_output(sink.rope, m.allowed)
+        except RO.Structure as e:
+            s.rep.inconc('%s: output structure depends on symbolic text: %s' % (sc.name, e))
+            continue
+        env = Env(None, m.allowed)
+        checks = oracle(env, items, info, m)
+
+        def on_violation(c, model, m=m):
+            params = sc.params(model)
+            cls = classify(c, params, info) if classify else ''
+            key = '%s/%s%s' % (sc.name.lower(), c.key, ('/' + cls) if cls else '')
+            if key in reported:
+                return
+            reported.add(key)
+            stats['violations'].append(key)
+            # native replay: the real binary on the concretised files, same oracle evaluated concretely
+            rc, txt, log_, files = sc.native(ctx, model)
+            s.replays += 1
+            rdir = save_replay(s.prop, re.sub(r'[^\w.-]+', '_', key)[:80], dict(list(files.items()) + [
+                ('params.json', json.dumps(params, indent=1, default=str)),
+                ('finding.txt', '%s\n%s\nparameters: %s\n' % (key, c.what, params)),
+                ('native_output.rs', txt or ''), ('native_log.txt', log_ or '')]))
+            if rc != 0 or txt is None:
+                s.rep.inconc('ENCODING-MISMATCH %s: SMI produced output but native zeep failed (rc=%s) for %s' % (key, rc, params))
+                return
+            try:
+                nitems, _ = RO.parse_output([txt])
+                nchecks = oracle(Env(model), nitems, info, None)
+            except Exception as e:
+                s.rep.inconc('%s: cannot evaluate the oracle on the native output: %r' % (key, e))
+                return
+            failing = [nc for nc in nchecks if nc.key == c.key and nc.ok is not True and not (isinstance(nc.ok, SymVal))]
+            if failing:
+                s.rep.violation(key, '%s [%s]' % (failing[0].what, ', '.join('%s=%s' % kv for kv in sorted(params.items()) if kv[1] != '\x00absent')[:300]), rdir)
+            else:
+                s.rep.inconc('ENCODING-MISMATCH %s: solver model %s does not violate %s on the native output' % (key, params, c.key))
+        stats['checks'] += eval_checks(s, sc, m, checks, on_violation)
+    s.solver_s += time.time() - t1
+    s.samples.append(stats)
+    return res, stats
+
+
+# ================================================================================================ C02
+
+def occ_class(c, params, info):
+    """witness class of a member finding: which occurrence / position feature the model exhibits"""
+    if c.cls is not None:
+        return c.cls(params)
+    bits = []
+    for k in sorted(params):
+        v = params[k]
+        if k.startswith('max') or k.startswith('pmax'):
+            if v not in ('\x00absent', '1'):
+                bits.append('%s=%s' % (k.rstrip('0123456789'), 'n>1' if v != 'unbounded' else 'unbounded'))
+        elif k.startswith('min') or k.startswith('pmin'):
+            if v == '0':
+                bits.append('%s=0' % k.rstrip('0123456789'))
+        elif k == 'inner_kind':
+            bits.append(v)
+    return ','.join(sorted(set(bits)))
+
+
+def members_oracle(env, items, info, m):
+    mp, _ = mod_map(items, info, env)
+    out = []
+    for fn, ct in info.subjects:
+        sch = info.schemas[fn]
+        out += O.check_struct_members(env, items, sch, ct, ct.name, mp)
+    for fn, gel in getattr(info, 'anon', []):
+        sch = info.schemas[fn]
+        fake = F.CT(gel.name, gel.content, gel.attrs)
+        out += O.check_struct_members(env, items, sch, fake, gel.name, mp, tag=' (anonymous-typed global element)')
+    for fn, st in getattr(info, 'simple', []):
+        name = pascal(st.name)
+        n = len(O.find_structs(items, name, env.allowed))
+        out.append(O.Check('struct-exactly-once', 'exactly one struct for simple type %s (found %d)' % (st.name, n), n == 1))
+    return out
+
+
+def c02(tier):
+    def body(s):
+        fams = F.s_seq(tier) + F.s_nest(tier) + [F.s_ref_anon_fwd(tier), F.s_xns(tier)]
+        s.functions.update(n for n in s.ctx.bodies if re.search(r'try_from_node|import_|read_(xsd|sequence|complex)|as_rust_type|write_(complex|type_alias)|field', n) and '::tests::' not in n)
+        for sc, info in fams:
+            scenario_check(s, sc, info, members_oracle, classify=occ_class)
+    return run_e2('C02', tier, body, bounds='scenario families S-seq, S-nest (sequence/choice inside sequence), S-ref-anon-fwd (all or 4 declaration '
+                  'orders), S-xns (imported namespace); per member: name over %d case styles incl. keywords, type over the 27 builtins + user types, '
+                  'minOccurs in {absent,0,1}, maxOccurs in {absent,1,2,unbounded} on the element and on the enclosing particle, use in {absent,optional,required}. '
+                  'Outside: deeper nesting, more than 4 members per content model.' % (12 if tier == 'thorough' else 9))
